@@ -241,7 +241,7 @@ def dprojectOp (w : List String) : String :=
         else if !compatible wt rt then "incompatible"
         else match project wt rt v with
           | .ok pv =>
-            let hz := if !benignP true false wt rt v then "f5" else if !benignP false true wt rt v then "k5" else "-"
+            let hz := if !benignP true wt rt v then "k5" else "-"
             s!"ok {showVal pv} {(deriveEncode wt v).length} {flagsOrDash (flagsTy false rt pv)} {hz}"
           | .unknown => "err variant"
           | .bad => "undef"
